@@ -21,15 +21,15 @@ na = {
 }
 checks = {
 "C02": dict(level="fault_enumeration", ref="DESIGN.md §5 C02",
-  text="Storage-fault simulation on the encoded bytes (seam S1). Every truncation point of every corpus file and every single-byte replacement (quick: 8 value classes per offset; thorough: all 255 other values, i.e. the single-fault space over the 971-file corpus completely) is enumerated, plus seeded 1-4-fault sequences (truncate, bit flip, byte set, zero/drop/duplicate range, splice, framing natural, hostile operand, garbage tail) over corpus, real-Encoder-written and foreign-writer files. Each faulted file is read by all five readers (Decode into recorder / Renderer+recording rasteriser / Encoder, DecodeViewBox, Disassemble) under invariants panic, hang, oom, input-modified, error-type, early-delivery, first-not-reset, prefix, call-without-byte, raster-bound. Evidence, not proof, outside the enumerated sub-space.",
+  text="Storage-fault simulation on the encoded bytes (seam S1). Every truncation point of every corpus file and every single-byte replacement (quick: 8 value classes per offset; thorough: all 255 other values, i.e. the single-fault space over the 971-file corpus completely) is enumerated, plus every 2-byte (quick) / 3-byte (thorough) instruction stream after two valid headers in styling and drawing mode, seeded 1-4-fault sequences (truncate, bit flip, byte set, zero/drop/duplicate range, splice, framing natural, hostile operand, garbage tail) over corpus, real-Encoder-written and foreign-writer files, and random bytes after a header. Each faulted file is read by all five readers (Decode into recorder / Renderer+recording rasteriser / Encoder, DecodeViewBox, Disassemble) under invariants panic, hang, oom, input-modified, error-type, early-delivery, first-not-reset, prefix, call-without-byte, raster-bound. Evidence, not proof, outside the enumerated sub-space.",
   note="Trusts the Go runtime, the spec-derived metadata validator (used only as delivered => valid) and the recording rasteriser's pen semantics; x/image/vector is not driven with corrupt input. Hang = 20 s without a progress beacon.",
   technique="deterministic simulation: seeded fault injection on a simulated byte store + exhaustive single-fault enumeration over the corpus, invariants per read, tape shrinking and replay"),
 "C10": dict(level="fault_enumeration", ref="DESIGN.md §5 C10",
-  text="Producer-fault simulation on the Destination seam of the real Encoder (S2): a 4-state reference automaton written from the property text runs in lockstep and is compared through a Bytes probe (plus CSel/NSel/LOD) after every call. For each sampled legal history a protocol fault of each of 7 classes is injected at every position, then a Reset (restart) at later positions followed by a legal tail that must decode to itself; plus seeded histories over the whole alphabet. Each history runs probed, unprobed and on an Encoder reset with default metadata (zero-value).",
+  text="Producer-fault simulation on the Destination seam of the real Encoder (S2): a 4-state reference automaton written from the property text runs in lockstep and is compared through a Bytes probe (plus CSel/NSel/LOD) after every call. For each sampled legal history a protocol fault of each of 7 classes is injected at every position, then a Reset (restart) at later positions followed by a legal tail that must decode to itself; every history up to depth 5 (quick) / 6 (thorough) over a 16-call abstract alphabet is enumerated completely; plus long legal histories (runs of 37-300 identical drawing calls) and seeded histories over the whole alphabet. Each history runs probed, unprobed and on an Encoder reset with default metadata (zero-value).",
   note="Arguments on the dyadic lattice so 'decodes to that history' is bit-exact; error message text is not mirrored (only error-ness, EncodeError type and identity of the first error).",
   technique="deterministic simulation: fault enumeration over crash points of call histories against a reference automaton, seeded histories, tape shrinking and replay"),
 "C17": dict(level="fault_enumeration", ref="DESIGN.md §5 C17",
-  text="Crash-and-restart simulation of Encoder and Renderer objects: a first use A is aborted at a call index by one of several causes (producer stops mid-path, protocol fault, corrupt/truncated stored file failing mid-decode, completed), the object is restarted by Reset/Decode and a second program B must give exactly the result a fresh object gives (bytes, error, CSel/NSel/LOD; rasteriser log bit for bit incl. paints; pixels with the real vec.Rasterizer). Thorough enumerates every cut of A for each cause.",
+  text="Crash-and-restart simulation of Encoder and Renderer objects: a first use A is aborted at a call index by one of several causes (producer stops mid-path, protocol fault, corrupt/truncated stored file failing mid-decode, completed), the object is restarted by Reset/Decode and a second program B must give exactly the result a fresh object gives (bytes, error, CSel/NSel/LOD; rasteriser log bit for bit incl. paints; pixels with the real vec.Rasterizer); B is sometimes A's own template with a few arguments changed. Sampled (A,B) pairs get every cut of A enumerated for each cause. Also: same calls on two fresh Encoders, Bytes asked twice at the end and at a drawn mid-program point (inside open paths).",
   note="Results are copied before the object is touched again (an earlier Bytes slice aliases the recycled buffer by design). The vec back end is used only on well-formed input with moderate coordinates.",
   technique="deterministic simulation: crash/restart at enumerated call indices with injected abort causes, reused object vs fresh object as reference model, tape shrinking and replay"),
 "C07": dict(level="exploration", ref="DESIGN.md §5 C07",
